@@ -56,6 +56,13 @@ def sources(rng, tier):
             calls.reverse()
         out.append(('fallback-mixin', '%s { border: 1px solid; }\n%s(@c) { &:hover { color: @c; } .icon { top: 0; } & + & { left: 0; } }\n.button, .o .b2 {\n  %s\n  width: 1px;\n}\n.wrap { .inner { %s } }\n'
                     % (plain, mix, '\n  '.join(calls), ' '.join(calls))))
+    # rules whose only content is a mixin call that produces nothing (guard false, no matching definition, empty body) next to rules that
+    # do produce something: nothing empty may be printed (an empty rule does not survive a second compilation)
+    for _ in range(max(6, n // 6)):
+        guard = rng.choice(['when (@a > 10)', 'when (@a = 3)', 'when (iscolor(@a))'])
+        only = rng.choice(['.size(5);', '.nosuchmixin();', '.empty();', '.size(5); .nosuchmixin;', '@local: 1px; .size(5);'])
+        ctx = rng.choice(['%s', '@media print { %s }', '.outer { %s }'])
+        out.append(('empty-call', '.size(@a) %s { width: @a; }\n.empty() { }\n%s\n.big { .size(20); top: 0; }\n' % (guard, ctx % ('.small { %s }' % only))))
     return out
 
 
